@@ -14,6 +14,16 @@ RULE = ("queue: 2-6 events (queue / plain), 0-3 handlers each (sync scripts: wai
         "environment step or a queue event nested in a queue-event handler.  mode: a real Mode (use_wait_queue on/off) "
         "started by a queue event with generated handlers before/after Mode.start and on mode_<m>_starting; releases "
         "incl. stopping the mode; non-trivial = mode has use_wait_queue or a handler on mode_<m>_starting.  "
+        "life: chains of 1-3 real modes (three with use_wait_queue, one without); the head mode is started by an outer "
+        "queue event (sometimes also by a second queue or plain event), every further mode by a lifecycle event of its "
+        "predecessor (mode_<p>_will_start / _starting / _started / _stopping / _stopped, generated priority); generated "
+        "sync/async handlers on the outer events and on every mode's starting and stopping queue events (wait held until an "
+        "environment release, wait+clear = zero hold, no wait); operations, one per loop slice: post an outer event (again), "
+        "mode.stop(), release / cancel the k-th harness wait, and at the end three fair rounds stopping every mode and "
+        "releasing everything; non-trivial = a mode held the queue of its start event and a stop was requested.  "
+        "relock: 1-4 handlers of one queue event, each keeps its QueuedEvent and may wait; operations wait / clear on the "
+        "kept queues from outside and loop runs in any order, 25 % clear+wait of the same queue in one loop slice; "
+        "non-trivial = such a clear+wait pair was executed.  "
         "relay: the real queue_relay_player and queue_event_player configured in three contexts (machine-wide, two modes) "
         "on three queue events and four wait_for events (two of them shared by relays of different contexts), 0-4 "
         "generated sync/async handlers around them; one environment operation per loop slice: post a queue event, post a "
@@ -34,6 +44,9 @@ TRUSTED_BASE = [
     "of asyncio call_soon/create_task/Event.set), coq/C02/Relay.v (QueueRelayPlayer play/_callback/clear_context with registry and "
     "instance dicts as separate tables, QueueEventPlayer.play, composition with the event-manager machine), coq/C02/ModeCtl.v "
     "(ModeController._ball_ending/_mode_stopped_callback, Mode.stop/_stopped callback bookkeeping) "
+    "coq/C02/Life.v (Mode.start as a handler script, Mode._started / Mode.stop / Mode._stopped composed with the event-manager "
+    "machine step by step, mode table; input unrolled per event instance) and coq/C02/Relock.v (one dispatcher against wait/clear "
+    "from outside, both dispatcher versions), "
     "tied to /repo by correspondence: harness/props/c02.py runs the real EventManager / Mode / config players / ModeController on "
     "the rig and the model on the same scripts",
     "CPython asyncio (call_soon FIFO, Task wake-up through call_soon, Event.set) is MODELLED and validated on every run",
@@ -54,6 +67,15 @@ ASSUMPTIONS = [
     "and counted); queue_event_player entries without events_when_finished are not generated",
     "ballend: a new ball_ending is posted only after the previous one completed (what the game does); modes start and, "
     "when nobody holds their stopping event, stop within one loop slice",
+    "life suite: which start requests start a mode and which are ignored is the implementation's decision (checked by the oracle "
+    "against the mode's state) and enters the model as the script of that Mode.start invocation; stop requests are decided by "
+    "the model; the harness registers Mode.start itself as the handler of the start events (with a `_hid` kwarg) as the mode "
+    "controller does; that no handler script other than Mode._stopped clears a mode's wait is checked by oracle and "
+    "correspondence, not proved",
+    "relock: waits/clears from outside refer to the queue of a handler that was already invoked; the dispatcher-level theorems "
+    "of Relock.v are about one dispatcher with per-handler queues",
+    "the fix fixes/C02-dispatcher-rechecks-wait.patch is applied (modelled: the fixed dispatcher in Model.v and Relock.v; unfixed: "
+    "relock_lost_wait_refuted / oracle sig relock-wait-overrun)",
     "the fix fixes/C02-queue-event-player-args-callback.patch is applied (modelled: the fixed code; unfixed: "
     "qep_args_callback_refuted / oracle sig qep-callback-rejects-args)",
 ]
@@ -145,7 +167,7 @@ def _patch():
         if run.aborted:
             return None
         q = run.num(queue)
-        psn = run.mode_psn if getattr(_coroutine, "_c02_mode", False) else kwargs.get("_psn")
+        psn = run.psn_for(getattr(_coroutine, "_c02_mode", False), kwargs)
         run.log.append(["I", psn, _coroutine._c02_hid, q])
         run.log.append(["A", canon_args(kwargs)])
         run.in_adapter = True
@@ -156,6 +178,8 @@ def _patch():
 
     def start(self, mode_priority=None, callback=None, **kwargs):
         run = CUR
+        if run is not None and run.life is not None and self.name in run.life["idx"]:
+            return _life_start(self, o_start, run, mode_priority, callback, kwargs)
         if run is None or run.mode != self.name:
             return o_start(self, mode_priority, callback, **kwargs)
         if run.aborted:
@@ -185,9 +209,27 @@ def _patch():
 
     def started(self, **kwargs):
         run = CUR
-        if run is not None and run.mode == self.name and not run.aborted:
+        if run is not None and run.life is not None and self.name in run.life["idx"] and not run.aborted:
+            m = run.life["idx"][self.name]
+            run.log.append(["CB", run.life_psn.get((m, 2))])
+            run.life_psn[(m, 3)] = run.alloc()             # post(mode_<m>_started)
+            run.life_g[(m, 3)] = run.life_gen.get(m, 1) - 1
+            run.life_events.append(["started", m, len(run.log)])
+        elif run is not None and run.mode == self.name and not run.aborted:
             run.log.append(["CB", run.mode_psn])
         return o_started(self, **kwargs)
+
+    o_stopped = Mode._stopped
+
+    def stopped(self, *a, **kwargs):
+        run = CUR
+        if run is not None and run.life is not None and self.name in run.life["idx"] and not run.aborted:
+            m = run.life["idx"][self.name]
+            run.log.append(["CB", run.life_psn.get((m, 5))])
+            run.life_psn[(m, 6)] = run.alloc()             # post(mode_<m>_stopped)
+            run.life_g[(m, 6)] = run.life_gen.get(m, 1) - 1
+            run.life_events.append(["stopped", m, len(run.log)])
+        return o_stopped(self, *a, **kwargs)
 
     from mpf.config_players.queue_relay_player import QueueRelayPlayer
     from mpf.config_players.queue_event_player import QueueEventPlayer
@@ -244,6 +286,7 @@ def _patch():
     E.EventManager._async_handler_coroutine = adapter
     Mode.start = start
     Mode._started = started
+    Mode._stopped = stopped
 
 
 class Run:
@@ -277,6 +320,20 @@ class Run:
         self.plays = []
         self.watch = set()
         self.posted = []
+        self.life = None             # suite "life": {"idx": {mode name: number}, "starts": {hid: {...}}}
+        self.life_psn = {}           # (mode number, lifecycle event kind) -> post number of its current instance
+        self.life_events = []
+        self.life_reqs = []
+        self.life_gen = {}           # mode number -> lives so far
+        self.life_g = {}             # (mode number, kind) -> life the current instance of that event belongs to
+        self.life_inst = {}          # post number of an outer event -> how many times that event was posted before
+
+    def psn_for(self, flag, kwargs):
+        """post number a handler invocation belongs to: flag False -> the `_psn` kwarg of the post, True -> the mode
+        suite's starting event, a tuple -> that lifecycle event of the life suite"""
+        if isinstance(flag, (tuple, list)):
+            return self.life_psn.get(tuple(flag))
+        return self.mode_psn if flag else kwargs.get("_psn")
 
     def preallocate(self, n):
         from mpf.core.events import QueuedEvent
@@ -366,7 +423,7 @@ class Run:
         def handler(queue=None, **kwargs):
             if self.aborted:
                 return
-            psn = self.mode_psn if mode_handler else kwargs.get("_psn")
+            psn = self.psn_for(mode_handler, kwargs)
             if queue is not None:
                 self.log.append(["I", psn, hid, self.num(queue)])
                 self.log.append(["A", canon_args(kwargs)])
@@ -1984,17 +2041,575 @@ def describe_sync(case):
         case.get("mp") is not None or any(h[2][0] == "block" or (h[2][0] == "const" and h[2][1][0] == "dm") for h in hs))
 
 
+
+# ------------------------------------------------------------------------------------------------
+# suite "life": the whole life of the wait a use_wait_queue mode holds on the queue event that started it, for chains of
+# real modes: start -> (held mode_<m>_starting) -> active -> stop requested -> (held mode_<m>_stopping) -> stopped -> clear
+#   modes 0..3; events: 1, 2 outer queue events, 3 outer plain event, 10*(m+1)+k lifecycle event k of mode m
+#   (1 will_start, 2 starting [queue], 3 started, 5 stopping [queue], 6 stopped); Mode.start of mode m = handler 900+10*m+j
+LIFE_MODES = [("la", True), ("lb", True), ("lc", True), ("ld", False)]      # name, use_wait_queue
+LIFE_KINDS = {1: "will_start", 2: "starting", 3: "started", 5: "stopping", 6: "stopped"}
+LIFE_OUTER = {1: "c02l_go1", 2: "c02l_go2", 3: "c02l_go3"}
+
+
+def life_evname(ev):
+    if ev < 10:
+        return LIFE_OUTER[ev]
+    return "mode_%s_%s" % (LIFE_MODES[ev // 10 - 1][0], LIFE_KINDS[ev % 10])
+
+
+def life_is_queue(ev):
+    return ev in (1, 2) or (ev >= 10 and ev % 10 in (2, 5))
+
+
+def _life_start(self, o_start, run, mode_priority, callback, kwargs):
+    """logging wrapper around Mode.start for the life suite (calls the original)"""
+    if run.aborted:
+        return None
+    hid = kwargs.pop("_hid", None)
+    m = run.life["idx"][self.name]
+    info = run.life["starts"].get(hid, {"queue": False, "src": None})
+    psn = kwargs.get("_psn") if info["src"] is None else run.life_psn.get(tuple(info["src"]))
+    inst = run.life_inst.get(psn) if info["src"] is None else run.life_g.get(tuple(info["src"]))
+    queue = kwargs.get("queue")
+    at = len(run.log)
+    q = None
+    if info["queue"]:
+        q = run.num(queue) if queue is not None else None
+        run.log.append(["I", psn, hid, q])
+        run.log.append(["A", canon_args(kwargs)])
+    else:
+        run.log.append(["P", psn, hid])
+    was = bool(self._starting or self._active)
+    spsn = None
+    if not was:
+        run.life_psn[(m, 1)] = run.alloc()          # post(mode_<m>_will_start)
+        spsn = run.alloc()                          # post_queue(mode_<m>_starting)
+    mark = len(run.log)
+    run.in_mode = self.name
+    try:
+        o_start(self, mode_priority, callback, **kwargs)
+    finally:
+        run.in_mode = None
+    started = bool(self._starting and not was)
+    waits = [o[1] for o in run.log[mark:] if o[0] == "W"]
+    gen = None
+    if started:
+        gen = run.life_gen.get(m, 0)
+        run.life_gen[m] = gen + 1
+        run.life_psn[(m, 2)] = spsn
+        run.life_g[(m, 1)] = run.life_g[(m, 2)] = gen
+        run.qposts.append(spsn)
+        run.log.append(["Q", spsn])
+    run.life_reqs.append({"hid": hid, "mode": m, "inst": inst, "gen": gen, "psn": psn, "busy": was, "started": started, "waits": waits, "q": q,
+                          "queue": bool(info["queue"]), "got_queue": queue is not None, "at": at})
+    return None
+
+
+def _boot_life_rig():
+    from rig import Rig
+    modes = {}
+    for name, uwq in LIFE_MODES:
+        modes[name] = {"mode": {"start_events": ["c02l_unused_start_" + name], "stop_events": ["c02l_unused_stop_" + name],
+                                "priority": 100, "use_wait_queue": uwq, "game_mode": False}}
+    _W["lrig"] = Rig({"modes": [n for n, _ in LIFE_MODES]}, modes=modes).start()
+
+
+def _init_life():
+    if _W.get("boot_error"):
+        return
+    try:
+        _patch()
+        if _W.get("lrig") is None:
+            _boot_life_rig()
+    except BaseException as e:
+        _W["boot_error"] = "%s: %s" % (type(e).__name__, str(e)[:300])
+
+
+def gen_life(rng, tier, i):
+    n = rng.choice([1, 2, 2, 2, 2, 2, 2, 3, 3])
+    chain = rng.sample(range(len(LIFE_MODES)), n)
+    if not LIFE_MODES[chain[0]][1] and rng.random() < 0.7:
+        chain[0] = rng.choice([m for m in range(3) if m not in chain[1:]])
+    hid = [0]
+    regs = []
+
+    def handlers(ev, k, prios):
+        for _ in range(k):
+            hid[0] += 1
+            if not life_is_queue(ev):
+                body = ["s", []]
+            elif rng.random() < 0.2:
+                body = ["a", rng.random() < 0.6, rng.random() < 0.2]
+            else:
+                r = rng.random()
+                body = ["s", [["W"]] if r < 0.5 else ([["W"], ["CO"]] if r < 0.65 else [])]
+            regs.append([ev, hid[0], rng.choice(prios), body])
+    head = chain[0]
+    outer = [1]
+    regs.append([1, 900 + 10 * head, 100, ["start", head]])
+    if rng.random() < 0.4:
+        ev = rng.choice([2, 3])                     # a second start event of the head mode: queue or plain
+        outer.append(ev)
+        regs.append([ev, 900 + 10 * head + 1, 100, ["start", head]])
+    for ev in outer:
+        handlers(ev, rng.choice([0, 1, 1, 2, 3]), [1, 50, 100, 101, 150])
+    links = []
+    for prev, m in zip(chain, chain[1:]):
+        k = rng.choice([1, 2, 3, 3, 5, 6])
+        links.append(k)
+        regs.append([10 * (prev + 1) + k, 900 + 10 * m, rng.choice([1, 3, 100]), ["start", m]])
+    for m in chain:
+        base = 10 * (m + 1)
+        handlers(base + 2, rng.choice([0, 0, 1, 1, 2]), [1, 2, 5])
+        handlers(base + 5, rng.choice([0, 1, 1, 1, 2]), [1, 2, 5])
+        handlers(base + 1, rng.choice([0, 0, 1]), [1, 2, 5])
+        handlers(base + 3, 1, [1, 2, 5])            # (mode_<m>_started / _stopped are posted with a callback: never the
+        handlers(base + 6, 1, [1, 2, 5])            #  fast path; one plain handler keeps the model on the same path)
+    rng.shuffle(regs)
+    ops = [["PQ", 1, False]]
+    later = outer[1:]
+    for _ in range(rng.randint(2, 12)):
+        r = rng.random()
+        if r < 0.25:
+            ops.append(["ST", rng.choice(chain)])
+        elif r < 0.33 and later:
+            ev = later.pop(0)
+            ops.append(["PQ", ev, False] if ev != 3 else ["PP", 3])
+        elif r < 0.38:
+            ops.append(["PQ", 1, False])
+        else:
+            ops.append(["XN" if rng.random() < 0.1 else "CN", rng.randrange(4)])
+    if rng.random() < 0.8:                          # fair end: stop every mode, release every harness wait (three rounds)
+        for _ in range(3):
+            order = list(chain)
+            rng.shuffle(order)
+            for m in order:
+                ops += [["ST", m], ["CN", 0], ["CN", 0]]
+            ops += [["CN", 0], ["CN", 0]]
+    return {"chain": chain, "links": links, "regs": regs, "ops": ops}
+
+
+def _life_phase(md):
+    if md.stopping:
+        return 3
+    if md.active:
+        return 2
+    return 1 if md._starting else 0
+
+
+def run_life(case):
+    global CUR
+    _init_life()
+    if _W.get("boot_error"):
+        return dict(_boot_failed(), resolved=[], table=[], life_reqs=[], life_events=[])
+    rig = _W["lrig"]
+    em = rig.machine.events
+    modes = [rig.machine.modes[name] for name, _ in LIFE_MODES]
+    run = Run(em, rig.loop, "c02l")
+    run.life = {"idx": {name: j for j, (name, _) in enumerate(LIFE_MODES)}, "starts": {}}
+    evs = set(r[0] for r in case["regs"]) | set(op[1] for op in case["ops"] if op[0] in ("PQ", "PP"))
+    for ev in evs:
+        run.evname[ev] = life_evname(ev)
+    before = list(em._queue_tasks)
+    CUR = run
+    reboot = True
+    try:
+        for ev, hid, prio, body in case["regs"]:
+            if body[0] == "start":
+                run.life["starts"][hid] = {"queue": life_is_queue(ev), "src": None if ev < 10 else [ev // 10 - 1, ev % 10]}
+                run.keys[hid] = em.add_handler(life_evname(ev), modes[body[1]].start, priority=prio, _hid=hid)
+            else:
+                run.register(ev, hid, prio, body, mode_handler=(False if ev < 10 else (ev // 10 - 1, ev % 10)))
+        resolved = []
+        nposted = {}
+        for op in case["ops"]:
+            if run.aborted:
+                break
+            k = op[0]
+            if k in ("PQ", "PP"):
+                g = nposted.get(op[1], 0)
+                nposted[op[1]] = g + 1
+                run.life_inst[run.psn] = g
+                run.execute([op], None)
+                op = ["PQ", op[1], False, [], g] if k == "PQ" else ["PP", op[1], g]
+            elif k == "ST":
+                md = modes[op[1]]
+                if md.active and not md.stopping:
+                    psn = run.alloc()
+                    run.life_psn[(op[1], 5)] = psn
+                    run.life_g[(op[1], 5)] = run.life_gen.get(op[1], 1) - 1
+                    run.qposts.append(psn)
+                    run.log.append(["Q", psn])
+                    run.life_events.append(["stop", op[1], len(run.log)])
+                    md.stop()
+            else:
+                others = [j for j, it in enumerate(run.outst) if it[0] != "m"]      # a mode's wait is not ours to clear
+                if not others:
+                    continue
+                j = others[op[1] % len(others)]
+                if k == "XN" and run.outst[j][0] != "f":
+                    continue
+                op = [k, j]
+                run.execute([op], None)
+            resolved.append(op)
+            rig.advance(0.125)
+        tasks = [t for t in em._queue_tasks if t not in before]
+        out = run.observe(tasks)
+        table = []
+        for md in modes:
+            wq = md._mode_start_wait_queue
+            table.append([_life_phase(md), None if wq is None else run.qnum.get(id(wq), -1)])
+        out.update(qposts=run.qposts, shared=False, posts=run.posts, resolved=resolved, table=table,
+                   life_reqs=run.life_reqs, life_events=run.life_events,
+                   lives=[run.life_gen.get(j, 0) for j in range(len(LIFE_MODES))])
+        # drain quietly (wrappers bypassed, harness handlers inert): release everything, stop every mode
+        run.aborted = True
+        CUR = None
+        for _ in range(5):
+            for it in run.outst:
+                try:
+                    if it[0] == "f":
+                        if not it[1].done():
+                            it[1].set_result(None)
+                    elif it[1].waiter and it[0] == "w":
+                        it[1].clear()
+                except AssertionError:
+                    pass
+            run.outst = [it for it in run.outst if it[0] == "m"]
+            for md in modes:
+                if md.active and not md.stopping:
+                    md.stop()
+            rig.advance(0.125)
+        for key in run.keys.values():
+            em.remove_handler_by_key(key)
+        rig.advance(0.125)
+        left = [t for t in em._queue_tasks if t not in before]
+        reboot = bool(left or rig.exception() or any(md.active or md._starting or md.stopping or
+                                                     md._mode_start_wait_queue is not None for md in modes))
+        if rig.exception():
+            out["loop_exception"] = str(rig.exception())[:300]
+        return out
+    except Exception as e:
+        run.aborted = True
+        out = run.observe([])
+        out.update(qposts=run.qposts, shared=False, posts=run.posts, resolved=[], table=[], life_reqs=run.life_reqs,
+                   life_events=run.life_events, loop_exception="%s: %s" % (type(e).__name__, str(e)[:300]))
+        return out
+    finally:
+        CUR = None
+        if reboot:
+            _drop_rig("lrig")
+
+
+def c_lop(op):
+    k = op[0]
+    if k == "PQ":
+        return "(LEnv [APostQ %s false (@nil (Z * Z))])" % zlit(op[1] + 100 * op[4])
+    if k == "PP":
+        return "(LEnv [APostP %s])" % zlit(op[1] + 100 * op[2])
+    if k == "ST":
+        return "(LStop %s)" % nlit(op[1])
+    return "(%s %s)" % ("LRelN" if k == "CN" else "LCancelN", nlit(op[1]))
+
+
+def coq_life(case, out):
+    """The model input is unrolled per instance (see coq/C02/Life.v): the g-th post of outer event e is event e + 100*g,
+    the lifecycle events of the g-th life of a mode are 100*g + 10*(m+1) + k; every handler is registered for every
+    instance of its event; the script of a Mode.start handler for instance g is what the implementation did at that
+    invocation (started life `gen` of its mode, or ignored the request)."""
+    if out.get("loop_exception") or out.get("boot_error") or not log_ok(out):
+        return None
+    if any(t[1] == -1 for t in out["table"]) or any(r["inst"] is None for r in out["life_reqs"]):
+        return None
+    dec = {}
+    for r in out["life_reqs"]:
+        if (r["hid"], r["inst"]) in dec:
+            return None                       # (never: an instance of an event is dispatched once)
+        dec[(r["hid"], r["inst"])] = r["gen"] if r["started"] else None
+    ninst = {}
+    for op in out["resolved"]:
+        if op[0] in ("PQ", "PP"):
+            ninst[op[1]] = ninst.get(op[1], 0) + 1
+    regs = []
+    for r in case["regs"]:
+        ev, hid, prio, body = r
+        n = ninst.get(ev, 1) if ev < 10 else max(1, out["lives"][ev // 10 - 1])
+        for g in range(n):
+            if body[0] == "start":
+                gen = dec.get((hid, g))
+                script = "(@nil action)" if gen is None else \
+                    "(life_start_script %s %s %s)" % (blit(LIFE_MODES[body[1]][1]), nlit(body[1]), nlit(gen))
+                regs.append("(%s, mkH %s %s [] None None (HSync %s))" % (zlit(ev + 100 * g), zlit(hid), zlit(prio), script))
+            else:
+                regs.append(c_handler([ev + 100 * g] + r[1:]))
+    ops = tlist((c_lop(op) for op in out["resolved"]), "lop")
+    table = coqlist("(%s, %s)" % (zlit(p), "(@None nat)" if q is None else "(Some %s)" % nlit(q)) for p, q in out["table"])
+    return "(((%s, %s), %s), (%s, %s))" % (coqlist(regs), nlit(len(LIFE_MODES)), ops, c_outcome(out), table)
+
+
+def oracle_life(case, out):
+    """Independent of the model.  Nesting clause of the property: the wait a mode registered on the queue event that
+    started it stands for the mode's whole life - no later handler of that event and not its callback run before the
+    mode has stopped; every queue event (outer, starting, stopping) completes exactly once; MPF's own code never
+    misuses a queue (Double lock / Not locked)."""
+    regs = {}
+    for ev, hid, prio, body in case["regs"]:
+        regs.setdefault(ev, []).append((hid, prio))
+    if out.get("boot_error") or out.get("loop_exception"):
+        return oracle_log(out, regs, False, check_live=False)
+    if out["err"]:
+        return [{"sig": "mode-queue-misuse",
+                 "what": "Double lock / Not locked raised on a queue object by Mode.start / Mode._stopped (the harness "
+                         "handlers of this suite wait and clear at most once): log tail %s" % out["log"][-6:]}]
+    fails = oracle_log(out, regs, False, check_live=False)
+    log = out["log"]
+    for r in out["life_reqs"]:
+        name, uwq = LIFE_MODES[r["mode"]]
+        if r["busy"] and r["started"]:
+            fails.append({"sig": "mode-started-twice", "what": "start request %s started mode %s although it was running" % (r["hid"], name)})
+        if not r["busy"] and not r["started"]:
+            fails.append({"sig": "start-request-dropped", "what": "start request %s for the idle mode %s was ignored" % (r["hid"], name)})
+        if not r["started"] and r["waits"]:
+            fails.append({"sig": "ignored-start-holds-event", "what": "ignored start request %s of mode %s locked a queue" % (r["hid"], name)})
+        if r["got_queue"] != r["queue"]:
+            fails.append({"sig": "mode-start-foreign-queue",
+                          "what": "Mode.start of %s (handler %s of a %s event) was called %s a queue object: the queue of "
+                                  "another dispatch travelled with a lifecycle event"
+                                  % (name, r["hid"], "queue" if r["queue"] else "plain", "with" if r["got_queue"] else "without")})
+        elif r["started"] and r["waits"] != ([r["q"]] if (uwq and r["queue"]) else []):
+            fails.append({"sig": "mode-wait-queue", "what": "mode %s (use_wait_queue=%s) started by handler %s given queue %s: "
+                                                            "waits registered on %s" % (name, uwq, r["hid"], r["q"], r["waits"])})
+        if r["started"] and r["waits"] and r["queue"]:
+            # the mode holds queue q of the dispatch of post psn from log position `at` until it has stopped
+            end = len(log)
+            for kind, m, pos in out["life_events"]:
+                if kind == "stopped" and m == r["mode"] and pos > r["at"]:
+                    end = pos
+                    break
+            for n in range(r["at"] + 2, end - 1 if end < len(log) else end):
+                o = log[n]
+                if o[0] == "C" and o[1] == r["q"]:
+                    fails.append({"sig": "mode-wait-released-before-stopped",
+                                  "what": "mode %s released the wait on queue %s of post %s before it had stopped "
+                                          "(mode_%s_stopping not complete)" % (name, r["q"], r["psn"], name)})
+                    break
+                if o[0] in ("I", "CB") and o[1] == r["psn"]:
+                    fails.append({"sig": "outer-continued-before-mode-stopped",
+                                  "what": "queue event (post %s) went on (%s) while mode %s, started by its handler %s with "
+                                          "use_wait_queue, had not stopped" % (r["psn"], o, name, r["hid"])})
+                    break
+    if fails:
+        return fails
+    cbs = [o[1] for o in log if o[0] == "CB"]
+    for psn in set(cbs):
+        if cbs.count(psn) > 1:
+            fails.append({"sig": "callback-twice", "what": "post %s completed %d times" % (psn, cbs.count(psn))})
+    if not out["outst"] and all(p == 0 for p, _ in out["table"]):
+        for psn in out["qposts"]:
+            if cbs.count(psn) != 1:
+                fails.append({"sig": "callback-lost", "what": "every wait is released and every mode has stopped: queue event "
+                                                              "(post %s) completed %d times (dispatchers pending: %d)"
+                                                              % (psn, cbs.count(psn), out["pending"])})
+                break
+    return fails
+
+
+def shrink_life(case):
+    regs, ops = case["regs"], case["ops"]
+    for i in range(1, len(ops)):
+        yield dict(case, ops=ops[:i] + ops[i + 1:])
+    for i, r in enumerate(regs):
+        if r[3][0] != "start" and not (r[0] >= 10 and r[0] % 10 in (3, 6)):
+            yield dict(case, regs=regs[:i] + regs[i + 1:])
+    for i, r in enumerate(regs):
+        if r[3][0] == "start" and r[0] >= 10:
+            yield dict(case, regs=regs[:i] + regs[i + 1:])
+    for i, r in enumerate(regs):
+        if r[3][0] in ("s", "a") and r[3] != ["s", []] and life_is_queue(r[0]):
+            yield dict(case, regs=regs[:i] + [r[:3] + [["s", []]]] + regs[i + 1:])
+
+
+def nontrivial_life(case, out):
+    held = any(r["started"] and r["waits"] for r in out.get("life_reqs", []))
+    return held and any(e[0] == "stop" for e in out.get("life_events", []))
+
+
+def describe_life(case):
+    return "chain=%d links=%s stopping_handlers=%d" % (
+        len(case["chain"]), "".join(str(k) for k in case["links"]),
+        min(3, sum(1 for r in case["regs"] if r[0] >= 10 and r[0] % 10 == 5 and r[3][0] != "start")))
+
+
+
+# ------------------------------------------------------------------------------------------------
+# suite "relock": QueuedEvent.wait / clear from OUTSIDE the handlers on queue objects the handlers kept, at any time
+# relative to the wake-ups of the dispatcher task (coq/C02/Relock.v)
+def gen_relock(rng, tier, i):
+    n = rng.randint(1, 4)
+    hs = [rng.random() < 0.65 for _ in range(n)]
+    ops = []
+    for _ in range(rng.randint(1, 10)):
+        r = rng.random()
+        q = rng.randrange(n)
+        if r < 0.25:
+            ops += [["C", q], ["W", q]]          # first job done, second job started - in the same loop slice
+        elif r < 0.45:
+            ops.append(["C", q])
+        elif r < 0.6:
+            ops.append(["W", q])
+        else:
+            ops.append(["L"])
+    return {"hs": hs, "ops": ops}
+
+
+def run_relock(case):
+    from mpf.core.events import EventManager
+    _init_queue()
+    if _W.get("boot_error"):
+        return {"boot_error": _W["boot_error"], "log": [], "err": False, "pending": 0, "locked": []}
+    rig = _W["rig"]
+    _W["n"] += 1
+    em = EventManager(rig.machine)
+    name = "c02k_%d" % _W["n"]
+    qs, log = [], []
+
+    def make(i, w):
+        def handler(queue, **kwargs):
+            log.append(["inv", i, bool(qs[-1].waiter) if qs else False])
+            qs.append(queue)
+            if w:
+                queue.wait()
+                log.append(["wait", i])
+        return handler
+
+    def cb(**kwargs):
+        log.append(["cb", bool(qs[-1].waiter) if qs else False])
+    keys = [em.add_handler(name, make(i, w), priority=100 - i) for i, w in enumerate(case["hs"])]
+    err = False
+    try:
+        em.post_queue(name, cb)
+        rig.advance(0.125)
+        for op in case["ops"]:
+            try:
+                if op[0] == "L":
+                    rig.advance(0.125)
+                elif op[1] < len(qs):
+                    if op[0] == "W":
+                        qs[op[1]].wait()
+                        log.append(["wait", op[1]])
+                    else:
+                        qs[op[1]].clear()
+                        log.append(["clear", op[1]])
+            except AssertionError:
+                log.append(["err"])
+                err = True
+                break
+        if not err:
+            rig.advance(0.125)
+    except Exception as e:
+        _drop_rig("rig")
+        return {"log": log, "err": err, "pending": 0, "locked": [], "loop_exception": "%s: %s" % (type(e).__name__, str(e)[:300])}
+    out = {"log": log, "err": err, "pending": len(em._queue_tasks), "locked": [bool(q.waiter) for q in qs]}
+    for t in list(em._queue_tasks):
+        t.remove_done_callback(em._queue_task_done)
+        t.cancel()
+        em._queue_tasks.remove(t)
+    for k in keys:
+        em.remove_handler_by_key(k)
+    try:
+        rig.advance(0.125)
+    except Exception:
+        _drop_rig("rig")
+    return out
+
+
+def coq_relock(case, out):
+    if out.get("loop_exception") or out.get("boot_error"):
+        return None
+    ops = tlist(("KLoop" if op[0] == "L" else "(%s %s)" % ("KWait" if op[0] == "W" else "KClear", nlit(op[1]))
+                 for op in case["ops"]), "kop")
+    log = []
+    bad = False
+    for o in out["log"]:
+        if o[0] == "inv":
+            log.append("(KoInv %s)" % nlit(o[1]))
+            bad = bad or o[2]
+        elif o[0] == "cb":
+            log.append("KoCb")
+            bad = bad or o[1]
+        elif o[0] == "err":
+            log.append("KoErr")
+        else:
+            log.append("(%s %s)" % ("KoWait" if o[0] == "wait" else "KoClear", nlit(o[1])))
+    done = any(o[0] == "cb" for o in out["log"])
+    return "((%s, %s), (%s, %s, %s, %s))" % (coqlist(blit(w) for w in case["hs"]), ops, tlist(log, "kobs"), blit(bad),
+                                            zlit(3 if done else 1), blit(out["err"]))
+
+
+def oracle_relock(case, out):
+    if out.get("boot_error"):
+        return [{"sig": "machine-does-not-boot", "what": "MPF does not boot on this tree: " + out["boot_error"]}]
+    if out.get("loop_exception"):
+        return [{"sig": "loop-exception", "what": "exception in the event loop: " + out["loop_exception"]}]
+    fails = []
+    for o in out["log"]:
+        if (o[0] == "inv" and o[2]) or (o[0] == "cb" and o[1]):
+            fails.append({"sig": "relock-wait-overrun",
+                          "what": "%s ran while the wait on the previous handler's queue - registered again after a clear, "
+                                  "before the dispatcher task woke up - is outstanding"
+                                  % ("handler %d" % o[1] if o[0] == "inv" else "the completion callback")})
+            break
+    ncb = sum(1 for o in out["log"] if o[0] == "cb")
+    if ncb > 1:
+        fails.append({"sig": "callback-twice", "what": "callback fired %d times" % ncb})
+    if not out["err"] and not fails:
+        if ncb == 0 and not any(out["locked"]):
+            fails.append({"sig": "callback-lost", "what": "no queue is locked, the loop is idle, the callback was not called "
+                                                          "(dispatchers pending: %d)" % out["pending"]})
+        if ncb == 1 and out["pending"]:
+            fails.append({"sig": "callback-lost", "what": "callback called but %d dispatchers pending" % out["pending"]})
+        invoked = [o[1] for o in out["log"] if o[0] == "inv"]
+        if invoked != list(range(len(invoked))) or (ncb == 1 and len(invoked) != len(case["hs"])):
+            fails.append({"sig": "priority-order", "what": "handlers invoked: %s of %d" % (invoked, len(case["hs"]))})
+    return fails
+
+
+def shrink_relock(case):
+    ops = case["ops"]
+    for i in range(len(ops)):
+        yield dict(case, ops=ops[:i] + ops[i + 1:])
+    if len(case["hs"]) > 1:
+        n = len(case["hs"]) - 1
+        yield {"hs": case["hs"][:n], "ops": [op for op in ops if op[0] == "L" or op[1] < n]}
+
+
+def nontrivial_relock(case, out):
+    log = out.get("log", [])
+    return any(a[0] == "clear" and b[0] == "wait" and a[1] == b[1] for a, b in zip(log, log[1:]))
+
+
+def describe_relock(case):
+    return "handlers=%d waits=%d" % (len(case["hs"]), sum(case["hs"]))
+
+
 HDR_QUEUE = "From C02 Require Import Model.\nDefinition run := queue_run.\nDefinition out_eqb := outcome_eqb.\n"
 HDR_RELAY = ("From C02 Require Import Model Relay.\nDefinition c02_relay_cfg := %s.\n"
              "Definition run := relay_run.\nDefinition out_eqb := relay_out_eqb.\n" % RELAY_CFG_COQ)
 HDR_BALLEND = "From C02 Require Import Model ModeCtl.\nDefinition run := ballend_run.\nDefinition out_eqb := ballend_out_eqb.\n"
 HDR_SYNC = "From C02 Require Import Model.\nDefinition run := sync_run.\nDefinition out_eqb := sync_out_eqb.\n"
+HDR_RELOCK = "From C02 Require Import Relock.\nDefinition run := relock_run.\nDefinition out_eqb := relock_out_eqb.\n"
+HDR_LIFE = "From C02 Require Import Model Life.\nDefinition run := life_run.\nDefinition out_eqb := life_out_eqb.\n"
 
 SUITES = [
     Suite("queue", gen_queue, run_queue, HDR_QUEUE, coq_queue, oracle_queue, shrink_queue, nontrivial_queue,
           {"quick": 1500, "thorough": 40000}, worker_init=_init_queue, shard=250, describe=describe_queue),
     Suite("mode", gen_mode, run_mode, HDR_QUEUE, coq_mode, oracle_mode, shrink_mode, nontrivial_mode,
           {"quick": 400, "thorough": 8000}, worker_init=_init_mode, shard=200, describe=describe_mode),
+    Suite("life", gen_life, run_life, HDR_LIFE, coq_life, oracle_life, shrink_life, nontrivial_life,
+          {"quick": 500, "thorough": 10000}, worker_init=_init_life, shard=250, describe=describe_life),
+    Suite("relock", gen_relock, run_relock, HDR_RELOCK, coq_relock, oracle_relock, shrink_relock, nontrivial_relock,
+          {"quick": 400, "thorough": 10000}, worker_init=_init_queue, shard=400, describe=describe_relock),
     Suite("relay", gen_relay, run_relay, HDR_RELAY, coq_relay, oracle_relay, shrink_relay, nontrivial_relay,
           {"quick": 500, "thorough": 10000}, worker_init=_init_relay, shard=250, describe=describe_relay),
     Suite("ballend", gen_ballend, run_ballend, HDR_BALLEND, coq_ballend, oracle_ballend, shrink_ballend, nontrivial_ballend,
@@ -2007,21 +2622,31 @@ LEVEL_TEXT = ("Machine-checked proof (Coq) over an executable model of the event
               "ready queue, process_event_queue, sequential dispatcher tasks, QueuedEvent heap, coroutine adapter): for all "
               "handler scripts, nestings and environment schedules, a dispatcher never continues while the wait of its "
               "previous handler is outstanding, calls its callback at most once and only after its whole handler snapshot "
-              "ran in priority order, and - when no handler hands its queue object on to another queue event - every "
-              "posted queue event has completed whenever the loop is idle and nothing is outstanding.  Clients of queue "
+              "ran in priority order, and - when no handler hands its queue object on to another queue event - the callback "
+              "of every posted queue event has fired EXACTLY once whenever the loop is idle and nothing is outstanding, at "
+              "most once and never without a post at any other time (every queue post is in exactly one of event_queue, "
+              "callback_queue, a live dispatcher or the log; post numbers are never reused).  Clients of queue "
               "events: for all histories the queue relay player's handler registry and instance dicts stay in step, a "
               "wait_for event / a stopping context releases exactly its own queues exactly once and no blocked queue is "
-              "orphaned; ModeController._ball_ending holds the ball_ending queue exactly as long as a running game mode "
+              "orphaned; a mode's wait on the queue event that started it is released by the composition for exactly one "
+              "reason, the completion of that mode's stopping queue event, and every state of the composition (chains of "
+              "modes started by each other's lifecycle events) is a reachable state of the event-manager machine; a "
+              "dispatcher that wakes up while its queue is locked again invokes nothing and sleeps again - for all "
+              "sequences of waits, clears and loop runs it never overruns a lock, never loses a wake-up and calls the "
+              "callback exactly once; ModeController._ball_ending holds the ball_ending queue exactly as long as a running game mode "
               "(active or already stopping) has not finished stopping and clears it exactly once.  Relay and boolean "
               "folding incl. handler-registered kwargs and _min_priority blocking are proved against an independent "
               "positional specification.  All models are tied to /repo by running both on the same generated scripts on "
               "every run (real EventManager, Mode, QueueRelayPlayer, QueueEventPlayer, ModeController objects).")
 LEVEL_NOTE = ("Trusted: Coq kernel + vm_compute; no axioms.  Models hand-written; the asyncio FIFO scheduling they assume is "
-              "validated by the correspondence run.  Three defects of the original tree are refuted on the model "
-              "(nested_shared_queue_refuted, removed_handlers_callback_lost_refuted, qep_args_callback_refuted) and "
+              "validated by the correspondence run.  Four defects of the original tree are refuted on the model "
+              "(nested_shared_queue_refuted, removed_handlers_callback_lost_refuted, qep_args_callback_refuted, "
+              "relock_lost_wait_refuted) and "
               "repaired by fixes/C02-*.patch; the model describes the fixed code.  queue_callback_once_after_waits is "
-              "proved as _partial (completion at idle; uniqueness of post numbers across containers not proved, checked by "
-              "oracle + correspondence).  The relay-player and mode-controller models are abstract state machines composed "
-              "with / observed next to the event-manager machine, not one monolithic model.")
+              "proved in full for the event-manager machine (LemOnce.v); that a mode's wait is cleared by nothing but "
+              "Mode._stopped is proved for the composition's own effects only (other scripts: oracle + correspondence).  "
+              "The relay-player and mode-controller models are abstract state machines composed "
+              "with / observed next to the event-manager machine, not one monolithic model; the mode-life composition runs the "
+              "event-manager machine itself and adds the callbacks' effects after the step that logs the callback.")
 TECHNIQUE = "Coq proof (invariants over small-step machines) + differential correspondence (vm_compute) + direct trace oracle"
 DESIGN_REF = "DESIGN.md section 3, C02"
